@@ -71,7 +71,8 @@ class PathRun:
         self.prefix = decisions
         self.made: list[tuple[int, int]] = []   # (choice, n_alternatives)
         self.frames: list[Frame] = []
-        self.spec_mode = 0
+        self._spec_mode = 0
+        self.ex.quiet = False
         self.target = target
         self.old: Snapshot | None = None
         self.entry_locs: dict[str, Any] = {}
@@ -84,6 +85,15 @@ class PathRun:
         self.feasible_at: dict[int, list[int]] = {}
         self._hstack: list[list[str]] = []
         self.loop_ords: Any = None
+
+    @property
+    def spec_mode(self) -> int:
+        return self._spec_mode
+
+    @spec_mode.setter
+    def spec_mode(self, v: int) -> None:
+        self._spec_mode = v
+        self.ex.quiet = v > 0
 
     # ------------------------------------------------------------ decisions
     def decide(self, alts: list[Any], what: str) -> int:
@@ -148,21 +158,26 @@ class PathRun:
         if z3.is_true(cond):
             return
         t0 = time.time()
-        self.st.solver.push()
-        self.st.solver.add(z3.Not(cond))
-        r = self.st.solver.check()
-        if r == z3.sat and ob.status != 'failed':
-            ob.status = 'failed'
-            try:
-                ob.model = self._model_text(self.st.solver.model())
-            except Exception as e:  # pragma: no cover
-                ob.model = 'model unavailable: %r' % e
-            ob.path_desc = ' '.join(self.trace[-12:])
-        elif r == z3.unknown and ob.status == 'proved':
-            ob.status = 'unknown'
-            ob.model = 'solver: ' + self.st.solver.reason_unknown()
-            ob.path_desc = ' '.join(self.trace[-12:])
-        self.st.solver.pop()
+        r = z3.unknown
+        for sv in (self.st.solver, self.st.solver2):
+            sv.push()
+            sv.add(z3.Not(cond))
+            r = sv.check()
+            if r == z3.sat and ob.status != 'failed':
+                ob.status = 'failed'
+                try:
+                    ob.model = self._model_text(sv.model())
+                except Exception as e:  # pragma: no cover
+                    ob.model = 'model unavailable: %r' % e
+                ob.path_desc = ' '.join(self.trace[-12:])
+            elif r == z3.unknown and ob.status == 'proved' \
+                    and sv is self.st.solver2:
+                ob.status = 'unknown'
+                ob.model = 'solver: ' + sv.reason_unknown()
+                ob.path_desc = ' '.join(self.trace[-12:])
+            sv.pop()
+            if r != z3.unknown:
+                break
         dt = time.time() - t0
         ob.time += dt
         self.ex.solver_time += dt
@@ -314,6 +329,8 @@ class PathRun:
         i = idx.t
         self.implicit(z3.And(i >= -n, i < n), 'IndexError', node)
         si = z3.simplify(i)
+        if self.spec_mode and not z3.is_int_value(si):
+            return i        # specs index lists with in-range indices
         if z3.is_int_value(si):
             return i if si.as_long() >= 0 else n + i
         return z3.If(i < 0, n + i, i)
@@ -980,7 +997,13 @@ class PathRun:
         self.lv_write(lv, val)
 
     def assign_local(self, name: str, val: Any) -> None:
-        self.frames[-1].locs[name] = val
+        fr = self.frames[-1]
+        c = self.p.contracts.get(fr.func)
+        if c is not None and name in c.locals and not isinstance(val, Alias):
+            val = self.ex.coerce(
+                self.st, val, self.p.tenv.parse(c.locals[name]),
+            )
+        fr.locs[name] = val
 
     # ---------------------------------------------------------------- calls
     def e_Call(self, n: ast.Call) -> Any:
